@@ -162,6 +162,14 @@ def x_hist(ctx, case):
             ctx.check(False, "failfast.settable-on-outermost", {"stack": case["stack"], "error": repr(e)})
             return True
     failfast = case["failfast"] != "off"
+    for value in case.get("ff_seq", []):
+        # failfast assigned repeatedly (configuration layers): the last assignment is what counts
+        try:
+            top.failfast = value
+        except Exception as e:  # noqa
+            ctx.check(False, "failfast.settable-on-outermost", {"stack": case["stack"], "error": repr(e)})
+            return True
+        failfast = bool(value)
     detail = lambda: {"case": case}  # noqa: E731
     nontrivial = False
     i = 0
@@ -283,6 +291,8 @@ def x_run(ctx, case):
     out = io.StringIO()
     code = "no SystemExit"
     prog = None
+    if case.get("interrupt_at") is not None and case["interrupt_at"] < len(outcomes):
+        return _run_interrupted(ctx, case, outcomes)
     try:
         argv = ["prog"] + (["-f"] if case.get("failfast") else []) + ["test_suite"]
         from testtools.run import TestToolsTestRunner
@@ -324,6 +334,42 @@ def x_run(ctx, case):
     ctx.check(("OK" in text.splitlines()[-1:][0] if text.splitlines() else False) == (not bad),
               "run.summary-agrees-with-exit-status", lambda: {"tail": text[-200:], "problems": len(bad)})
     return bool(bad)
+
+
+def _run_interrupted(ctx, case, outcomes):
+    """A test raises KeyboardInterrupt (reported as an error, then re-raised): the interrupt leaves
+    testtools.run, but not before the summary - which agrees with the verdict - has been written."""
+    from testtools.run import TestProgram
+    import testtools
+    k = case["interrupt_at"]
+
+    class Interrupted(testtools.TestCase):
+        def test(self):
+            raise KeyboardInterrupt("ctrl-c")
+
+        def id(self):
+            return "interrupted"
+    modname = "tvm_c04_mod_%d" % next(_mod_counter)
+    mod = types.ModuleType(modname)
+    tests = [make_test(i, o, "testcase") for i, o in enumerate(outcomes)]
+    tests[k] = Interrupted("test")
+    mod.test_suite = lambda: unittest.TestSuite(tests)
+    sys.modules[modname] = mod
+    out = io.StringIO()
+    got = None
+    try:
+        TestProgram(module=mod, argv=["prog", "test_suite"], stdout=out)
+    except BaseException as e:  # noqa
+        got = e
+    finally:
+        sys.modules.pop(modname, None)
+    text = out.getvalue()
+    import re
+    ran = re.findall(r"Ran (\d+) test", text)
+    ctx.check(isinstance(got, KeyboardInterrupt) and ran == [str(k + 1)] and "FAILED" in text,
+              "run.summary-agrees-with-exit-status",
+              lambda: {"interrupted at": k, "left run() as": repr(got), "Ran": ran, "tail": text[-200:]})
+    return True
 
 
 def x_subprocess(ctx, case):
@@ -402,12 +448,24 @@ def run(ctx):
         ff = rng.choice(["off", "off", "leaf", "top"])
         if stack == "E2S" and ff == "top":
             ff = "leaf"
-        ctx.execute("hist", {"stack": stack, "failfast": ff,
-                             "segments": [random_segment(rng) for _ in range(rng.randint(1, 3))]})
+        hist = {"stack": stack, "failfast": ff,
+                "segments": [random_segment(rng) for _ in range(rng.randint(1, 3))]}
+        if ff != "leaf" and rng.random() < 0.2:
+            hist["ff_seq"] = [rng.random() < 0.5 for _ in range(rng.randint(1, 4))]
+        ctx.execute("hist", hist)
     for i in range(ctx.scale(120, 6000)):
         tests = [rng.choice(OUTCOMES) for _ in range(rng.randint(0, 5))]
         ctx.execute("run", {"tests": tests, "failfast": rng.random() < 0.3,
                             "runner_class": rng.choice([None, None, "no_tb_locals", "prior"])})
+    for tests in (["success"], ["success", "failure", "success"], ["skip", "success"]):
+        for k in range(len(tests)):
+            ctx.execute("run", {"tests": tests, "interrupt_at": k})
+    for stack in STACKS:
+        for seq in ([True, True, False], [True, False], [False, True], [True, True], [False, True, True, False]):
+            for tests in (["failure", "success"], ["success", "error", "success"]):
+                ctx.execute("hist", {"stack": stack, "failfast": "off", "ff_seq": seq,
+                                     "segments": [{"tests": tests, "kinds": ["testcase"] * len(tests)},
+                                                  {"tests": tests, "kinds": ["placeholder"] * len(tests)}]})
     for rc in (None, "no_tb_locals", "prior"):
         for ff in (True, False):
             for tests in (["failure", "success", "error"], ["success", "error", "failure"], ["uxsuccess", "success"]):
